@@ -22,8 +22,12 @@ class DjangoModelWithoutDunderStrTransformer(
         cst.BaseStatement, cst.FlattenSentinel[cst.BaseStatement], cst.RemovalSentinel
     ]:
 
-        # TODO: add filter by include or exclude that works for nodes
-        # that that have different start/end numbers.
+        # a class spans several lines: line includes/excludes name its `class Name(...)` line,
+        # which is also the line the change is reported on
+        if not self.filter_by_path_includes_or_excludes(
+            self.node_position(original_node.name)
+        ):
+            return updated_node
         if not any(
             self.find_base_name(base.value) == "django.db.models.Model"
             for base in original_node.bases
